@@ -430,6 +430,9 @@ func (g *seqGen) step() {
 		if g.r.Intn(6) == 0 {
 			c.Cnt = 1 << 20
 		}
+		if g.cfg.Avoid["read-above-rtmax"] && c.Cnt > 65536 {
+			c.Cnt = 65536
+		}
 	case "WRITE":
 		c.Fh = g.anyHandle(1)
 		o := g.byFh(c.Fh)
